@@ -202,7 +202,7 @@ func c17Gen(t *rapid.T) C17Case {
 	c.Params = c17GenParams(t)
 	c.Caps = mockstore.Caps{Label: rapid.IntRange(0, 15).Draw(t, "caps-label"), Line: rapid.IntRange(0, 15).Draw(t, "caps-line")}
 	layout := datagen.RapidLayout{T: t, Heavy: true, Comments: true, RawOK: true}
-	switch rapid.IntRange(0, 10).Draw(t, "origin") {
+	switch rapid.IntRange(0, 11).Draw(t, "origin") {
 	case 10:
 		// The hand-written address scanner of the ip() line filter against address-like garbage.
 		c.Origin = "ipfilter"
@@ -220,6 +220,30 @@ func c17Gen(t *rapid.T) C17Case {
 		}
 		if len(c.Recs) == 0 {
 			c.Recs = []model.Rec{{TS: datagen.BaseTS, Line: gen.BS(rapid.SampledFrom(c17IPLines).Draw(t, "ip-garbage-one")), Labels: map[string]string{}}}
+		}
+	case 9, 11:
+		// Queries written for the data (selectors and stages that match it), evaluated on grids
+		// of every shape - a step far above or far below the range, windows with gaps between
+		// them - so that the evaluation loops run over real samples.
+		c.Origin = "data-aware"
+		if rapid.Bool().Draw(t, "da-metric") {
+			d := datagen.GenMetricDataN(t, 30, false, true, false, 1, 4)
+			m := datagen.GenRange(t, d, datagen.RangeOpts{Grouping: true, KeepStage: true}, rapid.Bool().Draw(t, "da-unwrap"))
+			top := datagen.GenVecAgg(t, d, m, rapid.IntRange(0, 2).Draw(t, "da-depth"))
+			c.Recs = d.Recs
+			c.Query = gen.BS(gen.PrintMetric(top, layout))
+			step := rapid.SampledFrom([]int64{m.RangeNs * 3, m.RangeNs*10 + 1, m.RangeNs / 4, m.RangeNs, 250e6, 1e9, 7e9, 1}).Draw(t, "da-step")
+			if step <= 0 || step > 400*24*3600e9 {
+				step = 1e9
+			}
+			steps := rapid.Int64Range(1, 30).Draw(t, "da-steps")
+			start := datagen.BaseTS - rapid.Int64Range(0, 8).Draw(t, "da-start")*250e6
+			c.Params = model.Params{Start: start, End: start + steps*step, Step: step, Limit: -1}
+		} else {
+			sch := datagen.GenSchema(t, []string{"plain", "json", "logfmt", "delim", "packed"})
+			c.Recs = datagen.GenRecs(t, sch, 20, false)
+			q := datagen.GenLogQueryFor(t, sch, c.Recs, datagen.QueryOpts{MaxStages: 5, AllowDistinct: true, AllowParsers: true, AllowRewrite: true})
+			c.Query = gen.BS(gen.PrintLog(&q, layout))
 		}
 	case 0:
 		c.Origin = "bytes"
